@@ -90,7 +90,7 @@ def space_of(ex, st, v):
         n = z3.simplify(z3.If(v.hi > v.lo, v.hi - v.lo, 0))
         return Space(n=n, elem=lambda k: CandleAt(v.series, z3.simplify(v.lo + k)), span=(v.series, lambda k: v.lo + k))
     if isinstance(v, AList):
-        return Space(n=v.n, elem=v.elem, keep=v.keep)
+        return Space(n=v.n, elem=v.elem, keep=v.keep, span=v.span)
     if isinstance(v, GenVal):
         return gen_space(ex, st, v)
     if hasattr(v, "space"):
@@ -136,6 +136,40 @@ def merge_values(pairs, heap):
         for c, v in reversed(pairs[:-1]):
             t = z3.If(zbool(c), to_int_term(v), t)
         return SInt(t)
+    # Optional[T]: None on some paths, one numeric class on the others
+    nn = [(c, v) for c, v in pairs if v is not None and not isinstance(v, vals.SOpt)]
+    classes = set(vals.num_class(v) for _, v in nn)
+    if nn and len(nn) < len(pairs) and len(classes) == 1 and None not in classes and not any(isinstance(v, vals.SOpt) for v in vs):
+        cls = classes.pop()
+        none_c = False
+        rest = True  # conditions are tested in order: pair k applies when no earlier one did
+        val = None
+        acc_none = []
+        covered = False
+        # build nested ite in order
+        def build(idx):
+            c, v = pairs[idx]
+            if idx == len(pairs) - 1:
+                return (True if v is None else False), v
+            nn_, vv_ = build(idx + 1)
+            this_none = v is None
+            none_t = vals.zite(zbool(c), z3.BoolVal(this_none), zbool(nn_))
+            if v is None:
+                val_t = vv_
+            elif vv_ is None:
+                val_t = v
+            else:
+                if cls == "int":
+                    val_t = SInt(z3.If(zbool(c), to_int_term(v), to_int_term(vv_)))
+                elif cls == "bool":
+                    val_t = SBool(z3.If(zbool(c), vals.to_bool_term(v), vals.to_bool_term(vv_)))
+                elif cls == "float":
+                    val_t = SFloat(z3.If(zbool(c), to_real_term(v), to_real_term(vv_)))
+                else:
+                    val_t = SNum(z3.If(zbool(c), to_real_term(v), to_real_term(vv_)), z3.If(zbool(c), vals.isfloat_term(v), vals.isfloat_term(vv_)))
+            return none_t, val_t
+        none_t, val_t = build(0)
+        return vals.mk_opt(none_t, val_t)
     t = to_V(vs[-1], heap)
     for c, v in reversed(pairs[:-1]):
         t = z3.If(zbool(c), to_V(v, heap), t)
@@ -223,6 +257,8 @@ def gen_space(ex, st, gv):
         return Space(concrete=vals_out)
 
     cache = {}
+    # the body is evaluated lazily (per index term); it must see the state as of *now*
+    st = st.fork()
 
     def at(k):
         key = z3.simplify(k).sexpr() if not isinstance(k, int) else str(k)
@@ -281,7 +317,7 @@ def eval_comprehension(ex, node, st, kind):
         return
     if kind == "set":
         raise Unsupported("symbolic set comprehension")
-    yield st, AList(sp.n, sp.elem, sp.keep)
+    yield st, AList(sp.n, sp.elem, sp.keep, sp.span)
 
 
 # ---------------------------------------------------------------------------- reducers
@@ -290,8 +326,17 @@ def eval_comprehension(ex, node, st, kind):
 class SumSym:
     def __init__(self, name, body):
         self.fn = z3.Function(name, z3.IntSort(), z3.IntSort(), z3.RealSort())
-        self.body = body  # k -> z3 Real term
+        self._body = body  # k -> z3 Real term
         self.name = name
+        self._cache = {}
+
+    def body(self, k):
+        kid = k.get_id()
+        r = self._cache.get(kid)
+        if r is None:
+            r = (self._body(k), k)
+            self._cache[kid] = r
+        return r[0]
 
 
 def find_or_make_sum(ex, st, body, lo, hi):
@@ -349,6 +394,17 @@ def reduce_sum(ex, st, sp, node):
 
     # re-index over candle positions when the space spans a series slice (canonical form)
     lo, hi = z3.IntVal(0), sp.n
+    if sp.span is not None:
+        pos = sp.span[1]
+        d0 = z3.simplify(to_int_term(pos(z3.IntVal(0))))
+        d1 = z3.simplify(to_int_term(pos(z3.IntVal(1))) - d0)
+        rel = body
+        if z3.is_int_value(d1) and d1.as_long() == 1:
+            lo, hi = d0, z3.simplify(d0 + sp.n)
+            body = lambda j, rel=rel, d0=d0: rel(z3.simplify(j - d0))
+        elif z3.is_int_value(d1) and d1.as_long() == -1:
+            lo, hi = z3.simplify(d0 - sp.n + 1), z3.simplify(d0 + 1)
+            body = lambda j, rel=rel, d0=d0: rel(z3.simplify(d0 - j))
     ss = find_or_make_sum(ex, st, body, lo, hi)
     t = ss.fn(lo, hi)
     st.inst_terms.append(("sum", ss, lo, hi))
